@@ -197,12 +197,15 @@ class NormalizationContext(AbstractHashQueueContext):
         for attr, regex in self.event_filter:
             attr_tree = attr.split('.')
             e = event
+            found = True
             for a in attr_tree:
-                if a not in e:
+                # an event that does not have the named attribute is not matched by this entry
+                if not isinstance(e, dict) or a not in e:
+                    found = False
                     break
                 e = e[a]
 
-            if not isinstance(e, dict) and regex.search(str(e)) is not None:
+            if found and not isinstance(e, dict) and regex.search(str(e)) is not None:
                 return True
         return False
 
